@@ -470,6 +470,12 @@ class C12(Family):
     # IwRealCrossing,IwSqr,IwMag1Crossing,IwWstab}.lean are rewritten from the text of the `_poly_*` functions
     # of control/margins.py of the tree under check on every run and proved equal to the model's test polynomials
     extra_modules = ["CtrlVerif.Props.C12Gen"]
+    # source-text tie of the selection logic (notes/NOTES-py2lean-margins.md): Generated/Marg*.lean are rewritten by
+    # core/py2lean_marg.py from stability_margins / margin / phase_crossover_frequencies / the _poly_* tails / LTI.bandwidth
+    extra_modules += ["CtrlVerif.Props.C12GenSel", "CtrlVerif.Props.C12GenSm", "CtrlVerif.Props.C12GenSmRet",
+                      "CtrlVerif.Props.C12GenSmTop", "CtrlVerif.Props.C12GenSmZ", "CtrlVerif.Props.C12GenSmCor",
+                      "CtrlVerif.Props.C12GenMargin", "CtrlVerif.Props.C12GenBw", "CtrlVerif.Props.C12GenReal",
+                      "CtrlVerif.Props.C12GenEx"]
 
     def pre_build(self):
         import os
@@ -478,7 +484,10 @@ class C12(Family):
         problems, self.gen_info = py2lean_arith.regenerate(
             repo, leanproj.LEAN, ("poly_z_invz", "poly_z_real_crossing", "poly_z_mag1_crossing",
                                   "poly_iw_real_crossing", "poly_iw_sqr", "poly_iw_mag1_crossing", "poly_iw_wstab"))
-        return problems
+        from core import py2lean_marg
+        problems2, info2 = py2lean_marg.regenerate(repo, leanproj.LEAN)
+        self.gen_info.update(info2)
+        return problems + problems2
     externals = [
         "numpy.roots (returns all complex roots of the polynomial it is given; the polynomial is "
         "compared with the exactly recomputed one and the residual of every recorded root is recorded)",
